@@ -67,6 +67,9 @@ Definition rres_eqb (a b : rres) : bool :=
   | XCounts x, XCounts y => mset_eqb (fun p q => bytes_eqb (fst p) (fst q) && Z.eqb (snd p) (snd q)) x y
   | XKVs x, XKVs y => mset_eqb (fun p q => N.eqb (fst p) (fst q) && obj_eqb (snd p) (snd q)) x y
   | XBytes x, XBytes y => opt_eqb bytes_eqb x y
+  | XTimes x, XTimes y => mset_eqb (fun p q => bytes_eqb (fst p) (fst q) && bytes_eqb (snd p) (snd q)) x y
+  | XKVOs x, XKVOs y => mset_eqb (fun p q => N.eqb (fst p) (fst q) && opt_eqb obj_eqb (snd p) (snd q)) x y
+  | XBool x, XBool y => Bool.eqb x y
   | XErr, XErr => true
   | XPanic, XPanic => true
   | _, _ => false
@@ -101,12 +104,10 @@ Definition final_ops (s : state) : list op :=
 Definition point_states (V : variant) (s : state) (tail : list obsop) : option (state * state * state * state * bool) :=
   match run V s (final_ops s) with
   | Ok s2 =>
-      match reload V s2 with
-      | Ok s3 => match replay V s3 tail with
-                 | (Some s4, ok) => Some (s, s2, s3, s4, ok)
-                 | (None, _) => None
-                 end
-      | _ => None
+      let s3 := reload V s2 in
+      match replay V s3 tail with
+      | (Some s4, ok) => Some (s, s2, s3, s4, ok)
+      | (None, _) => None
       end
   | _ => None
   end.
@@ -138,18 +139,30 @@ Definition model_ok_gen (V : variant) (c : c16case) : bool :=
 (* ---- the property itself, evaluated on what the implementation returned ----
    0 holds; 1 keys/keyrange differ between read paths; 2 field lists or counters differ;
    3 values differ (key, all, keyvalues, keyrangevalues); 4 query results differ;
-   5 schema metadata differ; 6 a field merge rule is violated; 7 a request panicked *)
+   5 schema metadata differ; 6 a field merge rule is violated; 7 a request panicked;
+   8 fieldtimes differ; 9 the JSON schema in force differs.  8 and 9 are reported only when
+   nothing else fails (they are the two defects repaired by C16-7/8-fix.diff) *)
 Definition req_class (r : rreq) : nat :=
   match r with
-  | RKeys | RKeyRange _ _ => 1
+  | RKeys | RKeyRange _ _ | RHeadKey _ => 1
   | RFields | RFieldCounts => 2
-  | RKey _ _ _ | RAll _ _ | RKeyValues _ _ _ | RKeyRangeValues _ _ _ _ => 3
+  | RKey _ _ _ | RAll _ _ | RKeyValues _ _ _ _ | RKeyRangeValues _ _ _ _ _ => 3
   | RQuery _ _ _ _ => 4
-  | RMeta _ => 5
+  | RMeta _ | RHeadMeta _ => 5
+  | RFieldTimes => 8
+  | RSchemaInForce => 9
   end%nat.
 
 Definition all_same (l : list rres) : bool :=
   match l with [] => true | x :: r => forallb (rres_eqb x) r end.
+(* fieldtimes has no store path before repair 7 (HTTP 400 on committed versions, as documented):
+   only the answers that exist are compared *)
+Definition is_xerr (r : rres) : bool := match r with XErr => true | _ => false end.
+Definition same_answers (rr : rreq * list rres) : bool :=
+  match fst rr with
+  | RFieldTimes => all_same (filter (fun x => negb (is_xerr x)) (snd rr))
+  | _ => all_same (snd rr)
+  end.
 
 Definition mentions (body : obj) (f : bytes) : bool := omem f body.
 (* f is the _user/_time companion of a field the request mentions *)
@@ -214,9 +227,13 @@ Definition spec_class (c : c16case) : nat :=
      || existsb (fun rr => existsb is_xpanic (snd rr)) (c_reads c) then 7%nat
   else if negb (rules_walk [] (c_hist c)) then 6%nat
   else
-    match find (fun rr => negb (all_same (snd rr))) (c_reads c) with
+    match find (fun rr => negb (same_answers rr) && Nat.ltb (req_class (fst rr)) 8) (c_reads c) with
     | Some rr => req_class (fst rr)
-    | None => 0%nat
+    | None =>
+        match find (fun rr => negb (same_answers rr)) (c_reads c) with
+        | Some rr => req_class (fst rr)
+        | None => 0%nat
+        end
     end.
 
 Fixpoint classify_from (i : nat) (l : list c16case) : list (nat * nat) :=
@@ -226,5 +243,7 @@ Fixpoint classify_from (i : nat) (l : list c16case) : list (nat * nat) :=
               if Nat.eqb k 0 then classify_from (S i) r else (i, k) :: classify_from (S i) r
   end.
 Definition c16_spec_fail (l : list c16case) : list (nat * nat) := classify_from 0 l.
-Definition c16_model_mismatch (V : variant) (l : list c16case) : list nat :=
-  find_idx (fun c => negb (model_ok_gen V c)) l.
+(* the implementation must agree with one of the accepted models (the repaired code, or the code
+   with only the first six repairs while C16-7/8 are pending) *)
+Definition c16_model_mismatch (Vs : list variant) (l : list c16case) : list nat :=
+  find_idx (fun c => negb (existsb (fun V => model_ok_gen V c) Vs)) l.
